@@ -1,11 +1,13 @@
 import NasVerif.Props.C06
+import NasVerif.Proofs.MacLoops
 /-!
 # C07 — NIA1/NIA2/NIA3 MACs equal the standard 128-EIA1/2/3 functions
 
-Proved: GF(2^64) arithmetic of NIA1 (`mulx`, `mulxPow`, `mul`) is the specification's MULx / MULxPOW / MUL; NIA2 is
-128-EIA2 for every block cipher; the SNOW 3G keystream used by NIA1 is the specification's (C06). The block loop of NIA1
-and the bit loop of NIA3 against f9 / 128-EIA3 are stated as `…_statement` and checked on every run by the direct
-implementation-vs-specification stream: level "proof, partial".
+Proved: GF(2^64) arithmetic of NIA1 (`mulx`, `mulxPow`, `mul`) is the specification's MULx / MULxPOW / MUL; the SNOW 3G and
+ZUC keystreams are the specifications' (C06); NIA1 is UIA2 f9 and NIA3 is 128-EIA3 for messages of every bit length
+(`Proofs/MacLoops.lean`: block loop = EVAL recursion, `getWord` = keystream window); NIA2 is 128-EIA2 for every block
+cipher; the MAC API for algorithms 1–3 is those functions at LENGTH = 8·octets. The implementation-vs-specification stream
+still runs on every check as the tie of the model to the code.
 -/
 namespace NasVerif.Props.C07
 open NasVerif NasVerif.Model
@@ -93,20 +95,92 @@ theorem nia2_spec (E : Bytes → Bytes → Bytes) (key : Bytes) (count : BitVec 
     Security.NIA2 E key count (UInt8.ofNat b) (UInt8.ofNat d) msg = .ok (Spec.eia2 (E key) count.toNat b d msg) := by
   simp [Security.NIA2, Spec.eia2, Spec.t1, Security.put32, C06.octet5 b hb d hd]
 
-/-! ### not yet proved (checked by the `secspec` differential stream on every run) -/
+/-! ### NIA1 = f9, NIA3 = 128-EIA3 for every message bit length -/
 
-def nia1_statement : Prop :=
-  ∀ (ik : Bytes) (count b d : Nat) (msg : Bytes) (length : Nat),
-    ik.length = 16 → count < 2^32 → b < 32 → d < 2 → msg.length = (length + 7) / 8 →
-    (Spec.bytesBits msg).drop length = List.replicate (8 * msg.length - length) false →
-    ∃ mac, Security.NIA1 ik (BitVec.ofNat 32 count) (UInt8.ofNat b) (BitVec.ofNat 32 d) msg length = .ok mac ∧
-      mac = Security.put32 (Spec.f9 ik count b d ((Spec.bytesBits msg).take length))
+theorem f9_fresh : ∀ b, b < 32 → BitVec.ofNat 32 (UInt8.ofNat b).toNat <<< 27 = BitVec.ofNat 32 (b * 2^27) := by decide
+theorem f9_dir : ∀ d, d < 2 → BitVec.ofNat 32 d <<< 15 = BitVec.ofNat 32 (d * 2^15) ∧ BitVec.ofNat 32 d <<< 31 = BitVec.ofNat 32 (d * 2^31) := by
+  decide
 
-def nia3_statement : Prop :=
-  ∀ (ik : Bytes) (count b d : Nat) (msg : Bytes) (length : Nat),
-    ik.length = 16 → count < 2^32 → b < 32 → d < 2 → msg.length = (length + 7) / 8 → length + 31 < 2^32 →
-    ∃ mac, Security.NIA3 ik (BitVec.ofNat 32 count) (UInt8.ofNat b) (UInt8.ofNat d) msg length = .ok mac ∧
-      mac = Security.put32 (Spec.eia3 ik count b d ((Spec.bytesBits msg).take length))
+theorem keyWords_eq (ck : Bytes) : Security.keyWords ck = Spec.f8Key ck := by
+  simp [Security.keyWords, Spec.f8Key, Security.be32, Spec.word, List.range, List.range.loop]
+
+/-- NIA1 = UIA2 f9 (128-EIA1): for every key, COUNT, bearer 0–31, direction and message of every bit length (the message octets
+hold the LENGTH bits, the unused low bits of the last octet being zero), the MAC is f9 of the message bit string -/
+theorem nia1_spec (ik : Bytes) (count b d : Nat) (msg : Bytes) (length : Nat) (hb : b < 32) (hd : d < 2)
+    (hlen : msg.length = (length + 7) / 8)
+    (hz : (Spec.bytesBits msg).drop length = List.replicate (8 * msg.length - length) false) :
+    Security.NIA1 ik (BitVec.ofNat 32 count) (UInt8.ofNat b) (BitVec.ofNat 32 d) msg length =
+      .ok (Security.put32 (Spec.f9 ik count b d ((Spec.bytesBits msg).take length))) := by
+  have hn : ((Spec.bytesBits msg).take length).length = length := by
+    rw [List.length_take, Proofs.BitLists.bytesBits_length]; omega
+  unfold Security.NIA1
+  simp only []
+  rw [Proofs.MacLoops.nia1Blocks_spec mul_spec msg length ((Spec.bytesBits msg).take length)
+    (Proofs.MacLoops.msgBits_getD msg length hz) hlen]
+  simp only []
+  unfold Spec.f9
+  simp only [hn, Nat.add_sub_cancel, mul_spec, nia1_keystream, keyWords_eq, f9_fresh b hb, (f9_dir d hd).1, (f9_dir d hd).2, Spec.f9IV]
+  rfl
+
+theorem eia3_iv (count b d : Nat) (hb : b < 32) (hd : d < 2) :
+    let c := Security.put32 (BitVec.ofNat 32 count)
+    ([c.getD 0 0, c.getD 1 0, c.getD 2 0, c.getD 3 0, (UInt8.ofNat b <<< 3) &&& 0xF8, 0, 0, 0,
+      (UInt8.ofNat d <<< 7) ^^^ c.getD 0 0, c.getD 1 0, c.getD 2 0, c.getD 3 0, (UInt8.ofNat b <<< 3) &&& 0xF8, 0, (UInt8.ofNat d <<< 7) ^^^ 0, 0] : Bytes).map
+      (·.toNat) = Spec.eia3IV count b d := by
+  have h1 : ∀ b, b < 32 → ((UInt8.ofNat b <<< 3) &&& 0xF8).toNat = b * 8 := by decide
+  have h2 : ∀ d, d < 2 → (UInt8.ofNat d <<< 7).toNat = d * 128 := by decide
+  simp only [Security.put32, Spec.eia3IV, List.map_cons, List.map_nil, List.getD_cons_zero, List.getD_cons_succ, h1 b hb,
+    UInt8.toNat_xor, h2 d hd, BitVec.toNat_ofNat, UInt8.toNat_ofNat']
+  have e0 : count % 2 ^ 32 / 2 ^ 24 % 2 ^ 8 = count / 2 ^ 24 % 256 := by omega
+  have e1 : count % 2 ^ 32 / 2 ^ 16 % 2 ^ 8 = count / 2 ^ 16 % 256 := by omega
+  have e2 : count % 2 ^ 32 / 2 ^ 8 % 2 ^ 8 = count / 2 ^ 8 % 256 := by omega
+  have e3 : count % 2 ^ 32 % 2 ^ 8 = count % 256 := by omega
+  simp [e0, e1, e2, e3, Nat.xor_comm]
+
+/-- NIA3 = 128-EIA3 for every key, COUNT, bearer 0–31, direction and message of every bit length -/
+theorem nia3_spec (ik : Bytes) (count b d : Nat) (msg : Bytes) (length : Nat) (hb : b < 32) (hd : d < 2)
+    (hlen : msg.length = (length + 7) / 8) :
+    Security.NIA3 ik (BitVec.ofNat 32 count) (UInt8.ofNat b) (UInt8.ofNat d) msg length =
+      .ok (Security.put32 (Spec.eia3 ik count b d ((Spec.bytesBits msg).take length))) := by
+  have hn : ((Spec.bytesBits msg).take length).length = length := by
+    rw [List.length_take, Proofs.BitLists.bytesBits_length]; omega
+  unfold Security.NIA3
+  simp only []
+  rw [Proofs.MacLoops.genMac_spec msg _ length ((Spec.bytesBits msg).take length) hn
+    (fun t ht => by rw [Proofs.BitLists.take_getD _ _ _ _ ht, Proofs.MacLoops.bytesBits_getD_total])
+    (by omega) (by rw [Zuc.Zuc_length])]
+  unfold Spec.eia3
+  simp only [hn]
+  rw [C06.zuc_keystream]
+  have := eia3_iv count b d hb hd
+  simp only [] at this
+  rw [this]
+
+/-- the MAC API for algorithms 1 and 3: 4 octets, the f9 / 128-EIA3 MAC of the 8·|message| message bits
+(pins the wrapper's octet-length → bit-length mapping and argument order) -/
+theorem nasMac13_spec (E : Bytes → Bytes → Bytes) (key : Bytes) (count b d : Nat) (hb : b < 32) (hd : d < 2) (m : Bytes) :
+    Security.NASMacCalculate E 1 key (BitVec.ofNat 32 count) (UInt8.ofNat b) (UInt8.ofNat d) (some m) =
+      .ok (some (Security.put32 (Spec.f9 key count b d (Spec.bytesBits m)))) ∧
+    Security.NASMacCalculate E 3 key (BitVec.ofNat 32 count) (UInt8.ofNat b) (UInt8.ofNat d) (some m) =
+      .ok (some (Security.put32 (Spec.eia3 key count b d (Spec.bytesBits m)))) := by
+  have hbn : (UInt8.ofNat b).toNat = b := UInt8.toNat_ofNat_of_lt' (show b < 256 by omega)
+  have hdn : (UInt8.ofNat d).toNat = d := UInt8.toNat_ofNat_of_lt' (show d < 256 by omega)
+  have hb' : ¬ (UInt8.ofNat b > 0x1f) := by simp [UInt8.lt_iff_toNat_lt, hbn]; omega
+  have hd' : ¬ (UInt8.ofNat d > 1) := by simp [UInt8.lt_iff_toNat_lt, hdn]; omega
+  have hfull : (Spec.bytesBits m).take (m.length * 8) = Spec.bytesBits m := by
+    apply List.take_of_length_le; rw [Proofs.BitLists.bytesBits_length]; omega
+  have hz : (Spec.bytesBits m).drop (m.length * 8) = List.replicate (8 * m.length - m.length * 8) false := by
+    rw [List.drop_of_length_le (by rw [Proofs.BitLists.bytesBits_length]; omega), show 8 * m.length - m.length * 8 = 0 by omega]
+    rfl
+  constructor
+  · have h := nia1_spec key count b d m (m.length * 8) hb hd (by omega) hz
+    rw [hfull] at h
+    simp only [Security.NASMacCalculate, hb', hd', if_false, hdn, h]
+    simp
+  · have h := nia3_spec key count b d m (m.length * 8) hb hd (by omega)
+    rw [hfull] at h
+    simp only [Security.NASMacCalculate, hb', hd', if_false, h]
+    simp
 
 /-- non-vacuity: the GF(2^64) reduction actually happens (top bit set) -/
 example : Security.mulx 0x8000000000000001#64 0x1b#64 = 0x19#64 := by decide
